@@ -192,7 +192,7 @@ fn rand_cfg() -> GenCfg {
         forloop_refs: false,
         coll_names: vec!["arr"],
         wild_ranges: false,
-        ops: vec!["=="],
+        ops: vec![],
         include: true,
         partials: vec!["p".into(), "q".into()],
         undefined_pct: 0,
